@@ -14,6 +14,18 @@ Streams
                       one handler run per (expression, enclosing precedence) on one instance)
   scalars    (oracle) histories mixing 4 / 4.0 / True (top level and reached through `rec`)
   optimizer  (oracle) optimized user classes (all 32 option sets) vs their non-memoizing counterparts
+  optimizer-subjects (oracle) `optimize_mapper` on 17 user classes (harness/c05_subjects.py) that
+                      override a handler the stock base class also publishes under other names
+                      (map_product = map_sum, ...), override alias names only, or declare an alias of
+                      their own; answers that are trees / empty tuples and sets / None (walk); every
+                      history holds one node of every operator class: answers vs the non-memoizing
+                      counterpart of the class AS WRITTEN, an override may only have run for node
+                      types whose handler name resolves to it, each key computed at most once
+  class-histories (oracle) histories over SEVERAL memoizing classes of one hierarchy (stock class,
+                      derived class overriding a handler, class derived from that) and several
+                      instances, in every order, on user-defined node types (served through the
+                      nearest ancestor's handler): each answer = the non-memoizing counterpart of
+                      THAT class applied afresh and carries that class's override marks only
 
 T-gen (extract/caching.py -> lean/PV/Generated/Caching.lean, regenerated on every run): the tuple of
 `get_cache_key`, the statement-by-statement protocol of `CachedMapper.__call__` and of the CSE
@@ -21,7 +33,10 @@ mix-in, sentinel and cache creation, every caching class with its MRO and the cl
 define the protocol attributes, the optimizer's rewriting loop, each live transformer class run on
 every dispatch expression of the model's syntax, and the rewritten source of the 4 x 32 optimized
 classes read back into the model's `Code`.  The optimized classes are built once per process and
-shared with the `optkeys` / `optimizer` streams.
+shared with the `optkeys` / `optimizer` streams.  extract/optcollect.py ->
+lean/PV/Generated/OptCollect.lean: six user classes as written (own definitions, class-level
+assignments, `dir` with what `getattr` resolves) next to the class bodies the live `optimize_mapper()`
+emits for them (PV/Properties/C05Collect.lean: `collect_current`, `flattened_resolves_current`).
 """
 from __future__ import annotations
 
@@ -116,6 +131,7 @@ def instrument(cls, once_names=None):
                     k = (name, type(expr), expr, args, frozen(kwargs))
                     d = self.__dict__.setdefault("_c05_counts", {})
                     d[k] = d.get(k, 0) + 1
+                    self.__dict__.setdefault("_c05_results", {})[k] = res
                 except TypeError:
                     pass
             return res
@@ -1887,3 +1903,556 @@ PROP = Prop(
 # adversarial extra arguments (keys with argument VALUES: PV/Model/MemoArgs.lean, PV/Properties/C05Args.lean)
 PROP.lean_targets.append("PV.Properties.C05Args")
 PROP.streams.extend([KeyEqArgsStream(), MemoTraceArgsStream(), ArgKeysStream()])
+
+
+# {{{ stream: optimizer subjects (overridden handlers that the base class publishes under several
+#     names; answers that are None / empty)
+
+from .. import c05_subjects as S  # noqa: E402
+
+FOREIGN_DISPATCH = {"tuple": "map_tuple", "list": "map_list", "int": "map_constant",
+                    "float": "map_constant", "bool": "map_constant", "complex": "map_constant"}
+
+
+def dispatch_name(type_name):
+    """the handler name an object of the named type asks for (`mapper_method` of the node class;
+    `Mapper.map_foreign`'s documented routing for constants and containers)"""
+    cls = getattr(p, type_name, None)
+    if cls is not None:
+        return getattr(cls, "mapper_method", None)
+    return FOREIGN_DISPATCH.get(type_name)
+
+
+def mark_legit(cls, mark):
+    """May the handler that left `mark` (`H|<handler>|<node type>`) run for that node type in the
+    class AS WRITTEN?  Python's own attribute look-up decides: the name the node type asks for must
+    resolve, on the un-rewritten class, to the very function the class body defines as <handler>."""
+    _h, handler, tname = mark.split("|")
+    target = dispatch_name(tname)
+    return (target is not None and handler in vars(cls)
+            and getattr(cls, target, None) is vars(cls)[handler])
+
+
+def show(v, n=300):
+    """a short text of an answer (some trees have no `str`: the printer knows no wildcards)"""
+    try:
+        return repr(str(v)[:n])
+    except Exception:
+        return repr(v)[:n]
+
+
+def show_r(v, n=300):
+    """`repr` text (user-defined node classes print like their stock base class under `str`)"""
+    return repr(v)[:n]
+
+
+def marks_of(kind, answer, log):
+    if kind == "walk":
+        return [ev[0] for ev in log if isinstance(ev[0], str) and ev[0].startswith("H|")]
+    if kind == "identity":
+        return [t.function.name for t in scan.subterms(answer)
+                if isinstance(t, p.Call) and isinstance(t.function, p.Variable)
+                and t.function.name.startswith("H|")]
+    return [x for x in answer if isinstance(x, str) and x.startswith("H|")]
+
+
+def zoo(rng, g):
+    """one node of every operator class all four stock base mappers handle, in random order under a
+    random n-ary parent (every node type of the library in ONE history)"""
+    def c():
+        return g.gen("small", 1)
+
+    def cs():
+        return tuple(c() for _ in range(rng.randint(1, 3)))
+
+    f = p.Variable(rng.choice(["f", "g"]))
+    els = [p.Sum(cs()), p.Product(cs()), p.Quotient(c(), c()), p.FloorDiv(c(), c()),
+           p.Remainder(c(), c()), p.Power(c(), c()), p.LeftShift(c(), c()), p.RightShift(c(), c()),
+           p.BitwiseNot(c()), p.BitwiseOr(cs()), p.BitwiseXor(cs()), p.BitwiseAnd(cs()),
+           p.LogicalNot(c()), p.LogicalOr(cs()), p.LogicalAnd(cs()), p.Min(cs()), p.Max(cs()),
+           p.Comparison(c(), rng.choice(["<", "==", ">="]), c()), p.If(c(), c(), c()),
+           p.Call(f, cs()), p.Subscript(p.Variable("t"), c()), p.Lookup(p.Variable("r"), "u"),
+           cs(), p.CommonSubexpression(c()), p.Wildcard(), p.DotWildcard("a"), p.StarWildcard("a"),
+           p.FunctionSymbol()]
+    rng.shuffle(els)
+    # a few members go below other members
+    for _ in range(rng.randint(0, 4)):
+        a = els.pop()
+        host = rng.choice([p.Sum, p.Product, p.Min, p.Max, p.BitwiseOr, p.LogicalAnd])
+        els.insert(rng.randrange(len(els) + 1), host((a, c())))
+    parent = rng.choice([p.Sum, p.Product, p.Min, p.Max, p.BitwiseOr, p.BitwiseAnd, p.LogicalOr,
+                         tuple, lambda xs: p.Call(f, xs)])
+    return parent(tuple(els))
+
+
+_SUBJ_OPT: dict = {}
+
+
+def optimized_subject(name, bits):
+    key = (name, tuple(bits))
+    if key not in _SUBJ_OPT:
+        from pymbolic.mapper import optimize
+        _kind, cls = S.c05_subject(name)
+        getattr(optimize._get_ast_for_file, "cache_clear", lambda: None)()
+        try:
+            _SUBJ_OPT[key] = optimize.optimize_mapper(**dict(zip(OPT_NAMES, bits)))(cls)
+        finally:
+            getattr(optimize._get_ast_for_file, "cache_clear", lambda: None)()
+    return _SUBJ_OPT[key]
+
+
+def result_class(m):
+    """what the answers of the keys computed more than once on `m` look like"""
+    res = [m._c05_results.get(k) for k, n in getattr(m, "_c05_counts", {}).items() if n > 1]
+    if res and all(r is None for r in res):
+        return "none-result"
+    try:
+        if res and not any(bool(r) for r in res):
+            return "falsy-result"
+    except Exception:
+        pass
+    return "any-result"
+
+
+class OptSubjectsStream(Stream):
+    """`optimize_mapper(**options)(cls)` for user classes that override a handler the stock base class
+    also exports under other names (`harness/c05_subjects.py`), on histories that hold every node
+    type of the library: ONE instance of the rewritten class over the history vs the non-memoizing
+    counterpart of the class AS WRITTEN applied afresh; every override may only have run for node
+    types whose handler name resolves to it in the class as written; each key computed at most
+    once (answers that are None or empty included)."""
+    name = "optimizer-subjects"
+    has_model = False
+
+    def cases(self, rng, tier):
+        g = ExprGen(rng, lists=False, cse=0.15, floats=0.0)
+        subjects = [c.__name__ for cl in S.c05_SUBJECTS.values() for c in cl]
+        all_sets = list(itertools.product([False, True], repeat=5))
+        full = (True,) * 5
+        quick = tier == "quick"
+        second = set(rng.sample(subjects, 5)) if quick else set()
+        reps = 3 if quick else 6
+        for name in subjects:
+            if quick:
+                # the most rewritten variant for every class, one more option set for a few
+                sets = [full] + ([rng.choice([b for b in all_sets if b != full])]
+                                 if name in second else [])
+            else:
+                sets = all_sets
+            for bits in sets:
+                for r in range(reps):
+                    calls = gen_history(rng, g, depth=3)
+                    z = esx(zoo(rng, g))
+                    calls.insert(rng.randrange(len(calls) + 1), [z, [], {}])
+                    if r % 2:
+                        calls.append([z, [], {}])   # loaded as an equal-but-not-identical copy
+                    yield {"subject": name, "opts": list(bits), "calls": calls}
+
+    def run_impl(self, pl):
+        return "(oracle-only)"
+
+    def oracle(self, pl):
+        kind, cls = S.c05_subject(pl["subject"])
+        bits = tuple(pl["opts"])
+        opts = dict(zip(OPT_NAMES, bits))
+        calls = load_calls(pl)
+        if not coherent([e for e, _a, _k in calls]):
+            return None
+        on = "+".join(n for n, b in opts.items() if b) or "none"
+        m = counted(optimized_subject(pl["subject"], bits))()
+        plain = S.c05_plain(cls)
+        cum_c, cum_p = set(), set()
+        for i, (e, _a, _kw) in enumerate(calls):
+            fresh = plain()
+            n0 = len(m.__dict__.get("log", []))
+            got = outc(lambda: m(e))
+            ref = outc(lambda: fresh(e))
+            lc, lp = m.__dict__.get("log", [])[n0:], fresh.__dict__.get("log", [])
+            what = f"[{on}] class {cls.__name__} call #{i} {esx(e)[:100]}"
+            cum_c |= set(lc)    # (what a call that raises logged before it raised counts too: the
+            cum_p |= set(lp)    #  nodes completed below it stay memoized)
+            if got[0] == "ok":
+                for mk in marks_of(kind, got[1], lc):
+                    if not mark_legit(cls, mk):
+                        _h, handler, tname = mk.split("|")
+                        return Failure(
+                            f"optimizer-override-leaks:{handler}->{dispatch_name(tname)}",
+                            f"{what}: the rewritten class ran the user's {handler} for a {tname} "
+                            f"node; in the class as written {dispatch_name(tname)} is "
+                            f"{getattr(cls, dispatch_name(tname)).__qualname__}; rewritten instance "
+                            f"{show(got[1], 200)}, plain counterpart {show(ref[1], 200)}", pl)
+            if got[0] != ref[0] or (got[0] == "err" and got[1] != ref[1]):
+                return Failure(f"optimizer-outcome-differs:{on}",
+                               f"{what}: rewritten instance {got!r}, plain counterpart {ref!r}", pl)
+            if got[0] == "ok":
+                same = top_eq(e, got[1], ref[1]) and \
+                    (kind != "combine" or typed_eq(got[1], ref[1]))
+                if kind == "walk":
+                    same = same and is_subsequence(lc, lp) and cum_c == cum_p
+                if not same:
+                    return Failure(f"optimizer-differs:{on}",
+                                   f"{what}: rewritten instance {show(got[1])} "
+                                   f"(log {len(lc)}), plain counterpart {show(ref[1])} "
+                                   f"(log {len(lp)})", pl)
+        rc = recomputed(m)
+        if rc:
+            detail = (f"[{on}] class {cls.__name__}: handler ran more than once for one key on one "
+                      f"instance: {rc[:2]!r}")
+            if opts["inline_rec"] and not opts["inline_cache"]:
+                return Failure("optimizer-inline-rec-disables-cache", detail, pl)
+            return Failure(f"optimizer-recomputes:{result_class(m)}", detail, pl)
+        return None
+
+    def shrink(self, pl):
+        return shrink_calls(pl)
+
+    def nontrivial_key(self, pl, model, impl):
+        return pl["subject"] + str(pl["opts"]) + dumps([c[0] for c in pl["calls"]])
+
+    def stats(self, pl, mo, io, acc):
+        acc[pl["subject"]] = acc.get(pl["subject"], 0) + 1
+        on = "".join("1" if b else "0" for b in pl["opts"])
+        acc.setdefault("by_opts", {})
+        acc["by_opts"][on] = acc["by_opts"].get(on, 0) + 1
+
+# }}}
+
+
+PROP.streams.append(OptSubjectsStream())
+
+
+def extract_collect(ctx=None):
+    """T-gen: the class bodies the live `optimize_mapper()` emits for user classes of
+    harness/c05_subjects.py next to the classes as written (lean/PV/Generated/OptCollect.lean)"""
+    from extract.optcollect import extract_optcollect
+    return extract_optcollect(ctx)
+
+
+# method gathering of the optimizer (PV/Model/OptCollect.lean, PV/Properties/C05Collect.lean)
+PROP.lean_targets.append("PV.Properties.C05Collect")
+PROP.extractors.append(extract_collect)
+
+
+# {{{ stream: histories over several mapper CLASSES of one hierarchy, on user-defined node types
+
+USER_NODE_BASES = ["Variable", "Sum", "Product", "Quotient", "FloorDiv", "Power", "Call", "Subscript",
+                   "Comparison", "If", "Min", "BitwiseOr", "LogicalNot", "LeftShift"]
+CLASS_HISTORY_KINDS = ["identity", "combine", "collector", "walk", "substitution"]
+
+
+def user_node_classes(names):
+    """Node types as a downstream package declares them: `User<K>(K)` and `UserUser<K>(User<K>)`
+    (new classes on every call).  Their derived handler names (`map_user_sum`, …) are implemented
+    by no mapper, so every mapper serves them through the nearest ancestor's handler (`map_sum`)."""
+    import warnings
+    out = {}
+    with warnings.catch_warnings():
+        warnings.simplefilter("ignore")
+        for n in names:
+            k = getattr(p, n)
+            u = p.expr_dataclass()(type("User" + n, (k,), {"__annotations__": {}}))
+            uu = p.expr_dataclass()(type("UserUser" + n, (u,), {"__annotations__": {}}))
+            out[n] = (u, uu)
+    return out
+
+
+def userize(e, classes, two_level, mixed):
+    """`e` with the nodes of the chosen stock classes replaced (in pre-order: by the user class, by
+    the user class of the second level, left alone) by instances of the user-defined classes"""
+    import dataclasses
+    count = itertools.count()
+
+    def conv(v):
+        if isinstance(v, p.Expression) and dataclasses.is_dataclass(v):
+            cls = type(v)
+            if cls.__name__ in classes and cls is getattr(p, cls.__name__):
+                k = next(count) % 3
+                u, uu = classes[cls.__name__]
+                cls = u if k == 0 else (uu if two_level else u) if k == 1 else (cls if mixed else u)
+            return cls(*[conv(getattr(v, f.name)) for f in dataclasses.fields(v)])
+        if isinstance(v, tuple):
+            return tuple(conv(c) for c in v)
+        if hasattr(v, "items"):
+            return type(v)({k: conv(c) for k, c in v.items()})
+        return v
+    return conv(e)
+
+
+def user_dispatch(e):
+    """the handler name the node is served by: the first name along the MRO of its class that the
+    stock mappers implement (the user classes' own derived names are implemented by nobody)"""
+    for c in type(e).__mro__:
+        if c.__module__ == p.__name__:
+            return getattr(c, "mapper_method", None)
+    return None
+
+
+class hermetic:
+    """Class-level state a mapper class acquires during one history (attributes ADDED to a class of
+    the hierarchy) is removed afterwards: every history starts from what a new process sees, so a
+    replayed payload reproduces whatever the history before it was."""
+
+    def __init__(self, classes):
+        self.classes = {c for k in classes for c in k.__mro__ if c is not object}
+
+    def __enter__(self):
+        self.snap = {c: set(vars(c)) for c in self.classes}
+        return self
+
+    def __exit__(self, *exc):
+        for c, names in self.snap.items():
+            for n in set(vars(c)) - names:
+                try:
+                    delattr(c, n)
+                except (AttributeError, TypeError):
+                    pass
+        return False
+
+
+def level_handler(kind, level, name, base_fn):
+    """the override of handler `name` in the class of the given level: what the level below does,
+    plus a mark `L<level>|<name>` in the answer (walk: in the log)"""
+    mark = f"L{level}|{name}"
+
+    if kind in ("identity", "substitution"):
+        def handler(self, expr, *args, **kwargs):
+            return p.Call(p.Variable(mark), (base_fn(self, expr, *args, **kwargs),))
+    elif kind == "combine":
+        def handler(self, expr, *args, **kwargs):
+            return [mark, *base_fn(self, expr, *args, **kwargs)]
+    elif kind == "collector":
+        def handler(self, expr, *args, **kwargs):
+            return {p.Variable(mark)} | base_fn(self, expr, *args, **kwargs)
+    else:
+        def handler(self, expr, *args, **kwargs):
+            self.__dict__.setdefault("log", []).append((mark, type(expr), expr, args,
+                                                        frozen(kwargs)))
+            return base_fn(self, expr, *args, **kwargs)
+    handler.__name__ = name
+    return handler
+
+
+def class_chains(pl):
+    """([(memoizing class, constructor args)] by level, the same for the non-memoizing hierarchy):
+    level 0 is a stock class (or, for combine / collector / walk, the instrumented user class the
+    `pairs` stream uses), level 1 / 2 derive from the level below and override one handler each"""
+    import pymbolic.mapper as M
+    kind = pl["kind"]
+    if kind == "identity":
+        chain_c, chain_p = [(M.CachedIdentityMapper, ())], [(M.IdentityMapper, ())]
+    elif kind == "substitution":
+        from pymbolic.mapper.substitutor import (CachedSubstitutionMapper, SubstitutionMapper,
+                                                 make_subst_func)
+        assign = {k: sx_to_expr(loads(v)) for k, v in pl["subst"].items()}
+        f = make_subst_func(assign)
+        chain_c = [(M.CachedIdentityMapper, ()), (CachedSubstitutionMapper, (f,))]
+        chain_p = [(M.IdentityMapper, ()), (SubstitutionMapper, (f,))]
+    else:
+        c, q = pair_classes()[kind]
+        chain_c, chain_p = [(c, ())], [(q, ())]
+    for name in pl["overrides"]:
+        level = len(chain_c)
+        (cc, ca), (pc, pa) = chain_c[-1], chain_p[-1]
+        # the level below, as Python finds it on the NON-memoizing class of that level
+        h = level_handler("identity" if kind == "substitution" else kind, level, name,
+                          getattr(pc, name))
+        chain_c.append((type(f"L{level}C", (cc,), {name: h}), ca))
+        chain_p.append((type(f"L{level}P", (pc,), {name: h}), pa))
+    return chain_c, chain_p
+
+
+def level_marks(kind, answer, log):
+    if kind == "walk":
+        return [ev[0] for ev in log if isinstance(ev[0], str) and ev[0].startswith("L")]
+    if kind in ("identity", "substitution"):
+        return [t.function.name for t in scan.subterms(answer)
+                if isinstance(t, p.Call) and isinstance(t.function, p.Variable)
+                and t.function.name.startswith("L") and "|" in t.function.name]
+    if kind == "collector":
+        return [v.name for v in answer if isinstance(v, p.Variable) and "|" in v.name
+                and v.name.startswith("L")]
+    return [x for x in answer if isinstance(x, str) and x.startswith("L") and "|" in x]
+
+
+class ClassHistoryStream(Stream):
+    """Histories over SEVERAL memoizing classes of one hierarchy (a stock class, a class derived
+    from it that overrides a handler, a class derived from that one) and several instances, in
+    every order, on expressions that hold user-defined node types (served through the nearest
+    ancestor's handler).  Every answer is what the non-memoizing counterpart OF THAT CLASS returns
+    when applied afresh, and carries the marks of the overrides that class resolves to and of no
+    other class of the hierarchy.  Targets state shared between mapper classes (per-class or
+    per-process look-up tables found through inheritance)."""
+    name = "class-histories"
+    has_model = False
+
+    def cases(self, rng, tier):
+        n = 300 if tier == "quick" else 4000
+        g = ExprGen(rng, lists=False, cse=0.1, floats=0.0, extra_nodes=False, foreign=False)
+        for i in range(n):
+            kind = CLASS_HISTORY_KINDS[i % len(CLASS_HISTORY_KINDS)]
+            pool = USER_NODE_BASES if kind in ("identity", "substitution", "walk") else \
+                [b for b in USER_NODE_BASES if b not in ("Variable",)] + ["Variable"]
+            user = rng.sample(pool, rng.randint(1, 4))
+            if "Variable" not in user and rng.random() < 0.5:
+                user.append("Variable")
+            exprs = []
+            for _ in range(rng.randint(1, 3)):
+                e = g.gen(rng.choice(["num", "int", "bool"]), rng.randint(1, 3))
+                # one node of every user type, so that each is met in every history
+                extra = [self.sample_node(rng, g, b) for b in user]
+                exprs.append(esx(rng.choice([p.Sum, p.Product, p.Max])((e, *extra))))
+            names = [getattr(p, b).mapper_method for b in user]
+            n_over = 1 if kind == "substitution" else rng.randint(1, 2)
+            overrides = [rng.choice(names) for _ in range(n_over)]
+            levels = (2 if kind == "substitution" else 1) + n_over
+            calls = []
+            order = rng.choice(["base-first", "derived-first", "random"])
+            seq = list(range(levels)) if order == "base-first" else \
+                list(reversed(range(levels))) if order == "derived-first" else []
+            for j in range(rng.randint(levels, levels + 4)):
+                lvl = seq[j] if j < len(seq) else rng.randrange(levels)
+                calls.append([lvl, rng.randrange(len(exprs)), rng.choice(["fresh", "kept"])])
+            pl = {"kind": kind, "user": user, "two_level": rng.random() < 0.5,
+                  "mixed": rng.random() < 0.5, "exprs": exprs, "overrides": overrides,
+                  "calls": calls}
+            if kind == "substitution":
+                gs = ExprGen(rng, lists=False, cse=0.0, floats=0.0, extra_nodes=False)
+                pl["subst"] = {v: esx(gs.gen("num", 2))
+                               for v in rng.sample(["x", "y", "z", "i", "j", "b", "n", "m"],
+                                                   rng.randint(1, 4))}
+            yield pl
+
+    @staticmethod
+    def sample_node(rng, g, base):
+        def c():
+            return g.gen("small", 1)
+        k = getattr(p, base)
+        if base == "Variable":
+            return p.Variable(rng.choice(["x", "y", "z", "i", "j", "b", "n", "m"]))
+        if base in ("Sum", "Product", "Min", "BitwiseOr"):
+            return k(tuple(c() for _ in range(rng.randint(1, 3))))
+        if base == "Call":
+            return p.Call(p.Variable("f"), (c(),))
+        if base == "Subscript":
+            return p.Subscript(p.Variable("t"), c())
+        if base == "Comparison":
+            return p.Comparison(c(), "<", c())
+        if base == "If":
+            return p.If(c(), c(), c())
+        if base == "LogicalNot":
+            return p.LogicalNot(c())
+        return k(c(), c())      # Quotient, FloorDiv, Power, LeftShift
+
+    def run_impl(self, pl):
+        return "(oracle-only)"
+
+    def oracle(self, pl):
+        import warnings
+        kind = pl["kind"]
+        chain_c, chain_p = class_chains(pl)
+        classes = user_node_classes(pl["user"])
+
+        def expr(ei):   # a new, equal copy for every use
+            return userize(sx_to_expr(loads(pl["exprs"][ei])), classes, pl["two_level"],
+                           pl["mixed"])
+
+        def expected_marks(level):
+            """name -> mark of the most derived class at or below `level` that overrides it"""
+            out, every = {}, set()
+            for lv, name in enumerate(pl["overrides"], start=len(chain_c) - len(pl["overrides"])):
+                if lv <= level:
+                    out[name] = f"L{lv}|{name}"
+                    every.add(out[name])    # (an override hands over to the level below)
+            return out, every
+
+        # equal composite subterms typed differently (If(c, False, -1) / If(c, 0, -1)) are EQUAL
+        # expressions and legitimately share an entry (see `coherent`)
+        # (judged on the stock trees: user nodes are equal only if the stock nodes they stand for are)
+        if not coherent([sx_to_expr(loads(sx)) for sx in pl["exprs"]]):
+            return None
+        kept: dict = {}
+        cum: dict = {}
+        with hermetic([c for c, _a in chain_c]), warnings.catch_warnings():
+            warnings.simplefilter("ignore")
+            for i, (lvl, ei, how) in enumerate(pl["calls"]):
+                cls, cargs = chain_c[lvl]
+                pcls, pargs = chain_p[lvl]
+                if how == "kept":
+                    if lvl not in kept:
+                        kept[lvl] = cls(*cargs)
+                    m = kept[lvl]
+                else:
+                    m = cls(*cargs)
+                fresh = pcls(*pargs)
+                if kind == "walk":
+                    m.__dict__["log"] = []
+                e, e2 = expr(ei), expr(ei)
+                got = outc(lambda: m(e))
+                ref = outc(lambda: fresh(e2))
+                lc, lp = m.__dict__.get("log", []), fresh.__dict__.get("log", [])
+                what = (f"[{kind}] call #{i}: a {how} instance of the level-{lvl} class "
+                        f"(overrides by level: {pl['overrides']}) on {show_r(e, 200)}")
+                if got[0] != ref[0] or (got[0] == "err" and got[1] != ref[1]):
+                    return Failure(f"class-history-outcome-differs:{kind}",
+                                   f"{what}: memoizing instance {got!r}, non-memoizing counterpart "
+                                   f"of that class applied afresh {ref!r}", pl)
+                if got[0] != "ok":
+                    continue
+                want, every = expected_marks(lvl)
+                seen = set(level_marks(kind, got[1], lc))
+                top = want.get(user_dispatch(e))
+                if kind == "walk" and how == "kept":
+                    top = None      # the walk of a node walked before logs nothing
+                if not seen <= every or (top is not None and top not in seen):
+                    return Failure(
+                        f"class-history-handler-of-other-class:{kind}",
+                        f"{what}: the answer carries the override marks {sorted(seen)}; the "
+                        f"class resolves its overrides to {want} (top node is served by "
+                        f"{user_dispatch(e)}); memoizing instance {show_r(got[1])}, non-memoizing "
+                        f"counterpart {show_r(ref[1])}", pl)
+                if kind == "walk":
+                    cc, cp = cum.setdefault((lvl, how == "kept"), (set(), set()))
+                    if how != "kept":
+                        cc.clear()
+                        cp.clear()
+                    cc |= set(lc)
+                    cp |= set(lp)
+                    same = is_subsequence(lc, lp) and cc == cp
+                elif kind == "combine":
+                    same = typed_eq(got[1], ref[1])
+                else:
+                    same = top_eq(e, got[1], ref[1])
+                if not same:
+                    return Failure(f"class-history-differs:{kind}",
+                                   f"{what}: memoizing instance {show_r(got[1])}, non-memoizing "
+                                   f"counterpart of that class applied afresh {show_r(ref[1])}", pl)
+        return None
+
+    def shrink(self, pl):
+        cs = pl["calls"]
+        for i in range(len(cs)):
+            if len(cs) > 1:
+                yield {**pl, "calls": cs[:i] + cs[i + 1:]}
+        for flag in ("two_level", "mixed"):
+            if pl[flag]:
+                yield {**pl, flag: False}
+        for i, (lvl, ei, how) in enumerate(cs):
+            if how == "kept":
+                yield {**pl, "calls": cs[:i] + [[lvl, ei, "fresh"]] + cs[i + 1:]}
+        for j, sx in enumerate(pl["exprs"]):
+            for s_ in sx_shrinks(loads(sx)):
+                yield {**pl, "exprs": pl["exprs"][:j] + [dumps(s_)] + pl["exprs"][j + 1:]}
+
+    def nontrivial_key(self, pl, model, impl):
+        return json_key(pl)
+
+    def stats(self, pl, mo, io, acc):
+        acc[pl["kind"]] = acc.get(pl["kind"], 0) + 1
+        acc["calls"] = acc.get("calls", 0) + len(pl["calls"])
+        if not coherent([sx_to_expr(loads(sx)) for sx in pl["exprs"]]):
+            acc["skipped_incoherent"] = acc.get("skipped_incoherent", 0) + 1
+
+# }}}
+
+
+PROP.streams.append(ClassHistoryStream())
